@@ -72,7 +72,8 @@ func newC20Pair(rc *RunCtx, idx int, limit int) *c20Pair {
 	// the other policy bits vary per pair: whitespace tags, whitespace start, error start
 	// (require-encryption is left out so that clear-text sends happen before the session)
 	xa, xb := (r.Intn(8)<<3)&(PolWSTag|PolWSStart|PolErrStart), (r.Intn(8)<<3)&(PolWSTag|PolWSStart|PolErrStart)
-	cfgs := []PartyCfg{{KeyIdx: (2 * idx) % 6, Pol: pol | xa, Peer: 1, Frag: f, ErrHandler: r.Bool()}, {KeyIdx: (2*idx + 1) % 6, Pol: pol | xb, Peer: 0, Frag: f, ErrHandler: r.Bool()}}
+	// conversations of one account share the account's key object, as in an application
+	cfgs := []PartyCfg{{KeyIdx: (2 * idx) % 4, Pol: pol | xa, Peer: 1, Frag: f, ErrHandler: r.Bool(), SharedKey: true}, {KeyIdx: (2*idx + 1) % 4, Pol: pol | xb, Peer: 0, Frag: f, ErrHandler: r.Bool(), SharedKey: true}}
 	w := NewWorld(seed, cfgs)
 	w.LogKeep = rc.KeepLog
 	rc.worlds = append(rc.worlds, w)
@@ -187,6 +188,9 @@ func c20Run(rc *RunCtx) *Violation {
 	}
 	k := rc.Cfg["pairs"]
 	limit := rc.Cfg["len"]
+	for i := 0; i < 6; i++ {
+		SharedKey(i) // all key objects exist before the goroutines start
+	}
 	pairs := make([]*c20Pair, k)
 	for i := range pairs {
 		pairs[i] = newC20Pair(rc, i, limit)
